@@ -7,6 +7,7 @@ import MesaModel.Model.VizSize
 import MesaModel.Model.VizCtrl
 import MesaModel.Model.VizNet
 import MesaModel.Model.VizFrame
+import MesaModel.Model.VizPlot
 /-!
 Line-protocol driver for the Viz model (C20).  One output line per input line.
 Producer: harness/viz_common.py.
@@ -44,6 +45,13 @@ Producer: harness/viz_common.py.
                                      spec/TYPE/VALUE/LABEL (a dict with "type"; VALUE, LABEL: `-` if absent), fdict (a dict
                                      without "type"), val/VALUE
   change NAME VALUE                  the input of parameter NAME reports VALUE (after a successful `inputs`)
+
+ plot scenarios (the measure plots)
+  scenario plot                      reset
+  data M=v,v,… …                     the model variables collected so far: measure M with its values (all of one length)
+  plot str M | dict M:COLOR … | list M … | tuple M … | other
+                                     PlotMatplotlib(model, measure): `ok ylabel=M|- legend=y|n | LABEL|-,COLOR|-,v+v+… | …` or `err Key M`
+  backend NAME                       make_plot_component("m", backend=NAME): ok | err NotImplemented | err Value
 
  ctrl scenarios (the controls of SolaraViz; the model class takes `**kw`, is `running` while steps < kw["stop"])
   scenario ctrl model|sim            reset; ModelController / SimulatorController (ABMSimulator)
@@ -101,6 +109,8 @@ structure St where
   mparams : Option (List (String × Option Val)) := none
   widgets : List Widget := []
   ctrlMode : Bool := false
+  plotMode : Bool := false
+  table : Table := []
   ctrl : Option Ctrl := none
 
 def St.portrayal (st : St) : Portrayal := fun a => st.portray.lookup a
@@ -598,12 +608,65 @@ def ctrlLine (st : St) (ws : List String) : St × String :=
   | "loop" :: evs => ctrlOp st ((evs.mapM parseEv).map .loop) "bad-op"
   | _ => (st, "bad-op")
 
+/-! ### plot scenarios -/
+
+def parseSeries (s : String) : Option (String × List Int) :=
+  match s.splitOn "=" with
+  | [m, vs] => if m = "" then none else
+    if vs = "-" then some (m, []) else ((vs.splitOn ",").mapM String.toInt?).map fun (ys : List Int) => (m, ys)
+  | _ => none
+
+def fmtLine (l : PlotLine) : String :=
+  s!"{l.label.getD "-"},{l.color.getD "-"},{orDash ("+".intercalate (l.ys.map toString))}"
+
+def fmtPlot (p : Plot) : String :=
+  p.lines.foldl (fun acc l => acc ++ " | " ++ fmtLine l) s!"ok ylabel={p.ylabel.getD "-"} legend={if p.legend then "y" else "n"}"
+
+def parseMeasure (ws : List String) : Option MeasureSpec :=
+  match ws with
+  | ["str", m] => some (.str m)
+  | "dict" :: ms =>
+    let parse (t : String) : Option (String × String) :=
+      match t.splitOn ":" with
+      | [m, c] => if m = "" || c = "" then none else some (m, c)
+      | _ => none
+    match ms.mapM parse with
+    | some kv => if (kv.map (·.1)).Nodup then some (.dict kv) else none
+    | none => none
+  | "list" :: ms => some (.list ms)
+  | "tuple" :: ms => some (.tuple ms)
+  | ["other"] => some .other
+  | _ => none
+
+def plotLine (st : St) (ws : List String) : St × String :=
+  match ws with
+  | "data" :: ss =>
+    match ss.mapM parseSeries with
+    | some t =>
+      if !(t.map (·.1)).Nodup || !(t.all fun kv => kv.2.length == (t.head?.map (·.2.length)).getD 0) then (st, "bad-op")
+      else ({ st with table := t }, "ok")
+    | none => (st, "bad-op")
+  | "plot" :: spec =>
+    match parseMeasure spec with
+    | none => (st, "bad-op")
+    | some sp =>
+      match plotMeasure st.table sp with
+      | .error m => (st, s!"err Key {m}")
+      | .ok p => (st, fmtPlot p)
+  | ["backend", name] =>
+    match plotBackend name with
+    | .ok () => (st, "ok")
+    | .error .notImplemented => (st, "err NotImplemented")
+    | .error .value => (st, "err Value")
+  | _ => (st, "bad-op")
+
 def stepLine (st : St) (ws : List String) : St × String :=
   match ws with
+  | ["scenario", "plot"] => ({ plotMode := true }, "ok")
   | ["scenario", "ctrl", kind] =>
     if kind = "model" || kind = "sim" then ({ ctrlMode := true }, "ok") else (st, "bad-op")
   | "scenario" :: _ => stepLine0 st ws
-  | _ => if st.ctrlMode then ctrlLine st ws else stepLine0 st ws
+  | _ => if st.ctrlMode then ctrlLine st ws else if st.plotMode then plotLine st ws else stepLine0 st ws
 
 partial def loop (h : IO.FS.Stream) (out : IO.FS.Stream) (st : St) : IO Unit := do
   let line ← h.getLine
